@@ -2,6 +2,7 @@ package termunicode
 
 import (
 	"io"
+	"math/bits"
 	"rare/pkg/color"
 	"rare/pkg/multiterm/termscaler"
 )
@@ -52,8 +53,13 @@ func barWriteRunes(w io.StringWriter, blockChar rune, val, maxVal, maxLen int64)
 	if val > maxVal {
 		val = maxVal
 	}
+	if val <= 0 || maxLen <= 0 {
+		return
+	}
 
-	blocks := val * maxLen / maxVal
+	// val * maxLen / maxVal, with a 128-bit product (val*maxLen overflows int64 for huge values)
+	hi, lo := bits.Mul64(uint64(val), uint64(maxLen))
+	blocks, _ := bits.Div64(hi, lo, uint64(maxVal))
 	for blocks > 0 {
 		w.WriteString(string(blockChar))
 		blocks--
